@@ -29,20 +29,32 @@ type Hello struct {
 	Mutate func(*utls.ClientHelloSpec)
 	Manual bool                      // bytes written by the client are staged; the harness delivers them (Raw.Deliver)
 	Prep   func(cl, sv *memnet.Conn) // runs on both ends before the proxy can accept the connection
+	Rand   io.Reader                 // source of the client's randomness (nil: crypto/rand); a fixed reader gives every hello the same client random
+	// Filter may rewrite the bytes the client puts on the wire (off = offset of b[0] in the client's byte stream); what it
+	// returns is what is sent AND what counts as "the bytes the client sent"
+	Filter func(off int64, b []byte) []byte
 }
 
 // recConn records everything the client writes (ground truth for "the ClientHello the client sent").
 type recConn struct {
 	net.Conn
-	mu   sync.Mutex
-	sent []byte
+	mu     sync.Mutex
+	sent   []byte
+	filter func(off int64, b []byte) []byte
 }
 
 func (r *recConn) Write(b []byte) (int, error) {
 	r.mu.Lock()
-	r.sent = append(r.sent, b...)
+	out := b
+	if r.filter != nil {
+		out = r.filter(int64(len(r.sent)), append([]byte(nil), b...))
+	}
+	r.sent = append(r.sent, out...)
 	r.mu.Unlock()
-	return r.Conn.Write(b)
+	if _, err := r.Conn.Write(out); err != nil {
+		return 0, err
+	}
+	return len(b), nil
 }
 
 // Client is one TLS client of the stack.
@@ -87,12 +99,12 @@ func (s *Stack) Connect(name string, addr net.Addr, h Hello) *Client {
 		return c
 	}
 	c.Raw, c.Srv = cl, sv
-	c.rec = &recConn{Conn: cl}
+	c.rec = &recConn{Conn: cl, filter: h.Filter}
 	s.clients = append(s.clients, c)
 	ctx, cancel := context.WithCancel(context.Background())
 	c.cancel = cancel
 	if h.ID == nil {
-		cfg := &tls.Config{InsecureSkipVerify: true, ServerName: h.SNI, NextProtos: h.ALPN, MinVersion: h.MinVer, MaxVersion: h.MaxVer}
+		cfg := &tls.Config{InsecureSkipVerify: true, ServerName: h.SNI, NextProtos: h.ALPN, MinVersion: h.MinVer, MaxVersion: h.MaxVer, Rand: h.Rand}
 		tc := tls.Client(c.rec, cfg)
 		c.TLS = tc
 		go func() {
@@ -109,7 +121,7 @@ func (s *Stack) Connect(name string, addr net.Addr, h Hello) *Client {
 		}()
 		return c
 	}
-	cfg := &utls.Config{InsecureSkipVerify: true, ServerName: h.SNI, NextProtos: h.ALPN, MinVersion: h.MinVer, MaxVersion: h.MaxVer}
+	cfg := &utls.Config{InsecureSkipVerify: true, ServerName: h.SNI, NextProtos: h.ALPN, MinVersion: h.MinVer, MaxVersion: h.MaxVer, Rand: h.Rand}
 	uc := utls.UClient(c.rec, cfg, utls.HelloCustom)
 	spec, err := utls.UTLSIdToSpec(*h.ID)
 	if err != nil {
@@ -532,4 +544,14 @@ func (s *Stack) DialRaw(name string, addr net.Addr) *Client {
 	c.rec = &recConn{Conn: cl}
 	s.clients = append(s.clients, c)
 	return c
+}
+
+// FixedRand is a deterministic "random" source: every ClientHello built with it carries the same client random.
+type FixedRand struct{}
+
+func (FixedRand) Read(p []byte) (int, error) {
+	for i := range p {
+		p[i] = byte(0x42 + i%7)
+	}
+	return len(p), nil
 }
